@@ -44,7 +44,7 @@ TRUSTED_BASE = [
 MANIFEST = dict(
     text="Coq theorems over a hand-written model of gc.rs / heap.rs mark+sweep / run_gc root enumeration: packed two-bit map = abstract table, mark_exact (Used iff in range and reachable, any HashMap order), mark_fuel_enough, sweep_exact, gc_preserves_live, gc_reclaims_garbage, gc_preserves_symbols, heap invariant preserved by a collection; tied to /repo by forced-collection schedules (every k-th instruction, pseudo-random) with an independent reachability traversal after every collection, and by heap snapshots replayed through the extracted model and vm_compute.",
     design="DESIGN.md section 5 C03, Appendix A.5",
-    note="roots_complete is proved for the lexical-variable accesses (load/store through %ep: every address they dereference is a root-reachable one, and their result depends on those cells only); OPEN (stated as Definitions in Props/C03.v): roots_complete_stmt for the other dereferencing instructions, no_dangling_stmt, step_respects_heap_iso_stmt; schedule-unobservability of whole programs is carried by the correspondence. Axioms: none (Closed under the global context).",
+    note="roots_complete is proved for the lexical-variable accesses, ENTER, CALL/TCALL, CLOSURE and operand loads of MOV/PUSH (every address they hand to Heap::get is reachable from the root set mark_roots marks); OPEN (stated as Definitions in Props/C03.v): roots_complete_stmt for the builtins, no_dangling_stmt, step_respects_heap_iso_stmt; schedule-unobservability of whole programs is carried by the correspondence. Axioms: none (Closed under the global context).",
     technique="Rocq/Coq proof (induction on fuel / invariants over the mark phase) + forced-collection correspondence check")
 
 
